@@ -78,7 +78,7 @@ def make_recipe(rng, tier):
         max_segment_length=int(rng.integers(m, 40)), ignore_point_anomalies=False)
     return {"det": spec, "X": X, "index": (INDEX_KINDS + TIED_INDEX_KINDS)[int(rng.integers(7))],
             "columns": ["default", "strings", "duplicate", "printsame"][int(rng.integers(4))],
-            "history": [None, None, "same_object", "inplace"][int(rng.integers(4))],
+            "history": [None, None, "same_object", "inplace", "reconfigured"][int(rng.integers(5))],
             "hseed": int(rng.integers(2 ** 31))}
 
 
@@ -112,6 +112,22 @@ def exec_case(ctx, r):
             det.predict(df)
             nb = n + int(hr.integers(0, n + 1))
             det.predict(make_frame(hr.standard_normal((nb, p)) * 2.0, r["index"], r["columns"]))
+        elif hist == "reconfigured":
+            # built with another baseline / other scales, used once, then given the real configuration
+            # through (nested) set_params: must behave like a freshly built detector
+            det = build(spec)
+            first, back = {}, {}
+            for slot in ("collective_saving", "point_saving"):
+                sp = spec["kw"].get(slot)
+                if isinstance(sp, dict) and sp["cls"] == "L2Cost" and not isinstance(sp["kw"].get("param"), dict):
+                    first[f"{slot}__param"], back[f"{slot}__param"] = float(hr.normal(3, 1)), sp["kw"]["param"]
+            for k_ in ("collective_penalty_scale", "point_penalty_scale"):
+                first[k_], back[k_] = float(spec["kw"][k_]) * 3.0 + 0.5, spec["kw"][k_]
+            det.set_params(**first)
+            det.fit(df)
+            det.predict(df)
+            det.set_params(**back)
+            det.fit(df)
         else:
             det = build(spec).fit(df)
         y = det.predict(df)
